@@ -1,10 +1,13 @@
 import Driver.Loop
 import Midgard.Model.Sp3
+import Midgard.Model.Sp3Adv
 import Midgard.Generated.Sp3Cols
 import Midgard.Spec.Sp3File
 
 /-! Driver for C13 (SP3):  `c13 file <hexfile>` → JSON of header meta and entries (exact rationals,
 `null` = NaN); `RAISES` when the model says the real code raises.
+`c13 text <hexfile>` → the same for the raw bytes of a file with any line ends (`parseFileText`: universal
+newlines, then `parseFile`); used for the adversarial text-level files of `harness/c13_adv.py`.
 
 `c13 model <tokens of an abstract file>` → `{"wf":…,"thm":…,"text":<hex of render F>,"parse":…}`: the abstract
 file of `Spec/Sp3File.lean` is rendered by the spec writer, parsed by the model (`parseFile`), and compared
@@ -99,6 +102,12 @@ def handle : List String → Option String
   | ["c13", "file", h] => do
     let t ← (decodeHex? h).map ofString
     match parseFile factors headerDefs epochFields recP t with
+    | Option.none => pure "RAISES"
+    | some p => pure (showParsed p)
+  | ["c13", "text", h] => do
+    -- the bytes of a file with any line ends (CRLF, lone CR): text-mode translation, then `parseFile`
+    let t ← (decodeHex? h).map ofString
+    match parseFileText factors headerDefs epochFields recP t with
     | Option.none => pure "RAISES"
     | some p => pure (showParsed p)
   | "c13" :: "model" :: toks => do
